@@ -1077,7 +1077,14 @@ def connection_loss_ok(transport: str, frames, cut, chunks, nchannels: int = 2, 
 # ---------------------------------------------------------------------------------------
 
 class LoopGateway(gb.BaseGateway):
-    """Real BaseGateway over Popen2IO; what it sends is recorded in io.outfile (a PipeFile)."""
+    """Real BaseGateway over Popen2IO; what it sends is written to io.outfile (a PipeFile) by the real
+    _send/to_io and, for the oracles' convenience, also logged as (code, channelid, payload) tuples."""
+
+    def _send(self, msgcode, channelid=0, data=b""):
+        gb.BaseGateway._send(self, msgcode, channelid, data)
+        if not hasattr(self, "sent_log"):
+            self.sent_log = []
+        self.sent_log.append((msgcode, channelid, data))
 
 
 def make_gateway(wire: bytes, cls=None, startcount: int = 1):
@@ -1090,7 +1097,9 @@ def make_gateway(wire: bytes, cls=None, startcount: int = 1):
 
 
 def sent_frames(gw):
-    """decode what the gateway wrote so far into (code, channelid, payload) tuples."""
+    """what the gateway wrote so far as (code, channelid, payload) tuples."""
+    if isinstance(gw, LoopGateway):
+        return list(getattr(gw, "sent_log", []))
     data = gw._out.getvalue()
     frames = []
     p = 0
@@ -1864,4 +1873,126 @@ def rsync_tree_ok(dmode, fmode, fmtime, fcontent, prior: int, delete: bool, two_
         for op, path in fs.log:
             if op in ("write", "utime", "makedirs", "rmtree") or (op == "unlink" and not path.endswith(("/l", "/abs"))):
                 return False
+    return True
+
+
+# ---------------------------------------------------------------------------------------
+# C16: the proxied transport (master ProxyIO <-> forwarder serve_proxy_io <-> sub IO)
+# ---------------------------------------------------------------------------------------
+
+class ScriptedSubIO:
+    """what create_io() returns on the forwarder: the IO of the proxied sub process"""
+
+    def __init__(self, incoming: bytes, chunks):
+        self.src = ChunkSource(incoming, chunks)
+        self.execmodel = FakeExecModel()
+        self.written = []
+        self.calls = []
+        self.remoteaddress = "sub-address"
+
+    def read(self, n):
+        buf = b""
+        while len(buf) < n:
+            d = self.src.take(n - len(buf))
+            if not d:
+                raise EOFError("expected %d bytes, got %d" % (n, len(buf)))
+            buf += d
+        return buf
+
+    def write(self, data):
+        self.written.append(data)
+
+    def wait(self):
+        self.calls.append("wait")
+        return 7
+
+    def kill(self):
+        self.calls.append("kill")
+
+    def close_write(self):
+        self.calls.append("close_write")
+
+
+def pump_frames(gw, n=None):
+    """the body of the receiver loop, frame by frame, without the end-of-connection epilogue"""
+    k = 0
+    while n is None or k < n:
+        try:
+            msg = gb.Message.from_io(gw._io)
+        except EOFError:
+            return k
+        with gw._receivelock:
+            msg.received(gw)
+        k += 1
+    return k
+
+
+def deliver(gw, frames):
+    """hand decoded frames to a gateway's message handlers, as its receiver loop does after Message.from_io
+    (the byte-level framing on pipes/sockets is C08's subject and is skipped here)"""
+    for code, cid, payload in frames:
+        with gw._receivelock:
+            gb.Message(code, cid, payload).received(gw)
+
+
+def proxy_equivalence_ok(sub_msgs, to_sub, ctl_code, chunks) -> bool:
+    """sub_msgs: messages (code, channelid, payload) the proxied process writes; to_sub: byte strings the master writes
+    through ProxyIO; ctl_code: one control request.  Real ProxyIO (master), real serve_proxy_io (forwarder)."""
+    import execnet.gateway_io as gio
+
+    # ---- master side: real ProxyIO over a real channel of gateway M
+    M = make_gateway(b"")
+    mx = M.newchannel()
+    pio = gio.ProxyIO(mx, FakeExecModel())
+    for d in to_sub:
+        pio.write(d)
+    pio.controlchan.send(ctl_code)          # what _controll() sends (its blocking receive() is answered below)
+    m_out = sent_frames(M)
+    # ---- forwarder side: a real gateway fed with (spec, control channel, data..., control request)
+    F = make_gateway(b"", startcount=2)
+    fx = F._channelfactory.new(mx.id)
+    deliver(F, [(gb.Message.CHANNEL_DATA, mx.id, gb.dumps_internal({"popen": True, "id": "sub1"}))] + m_out)
+    stream = b"1"
+    for code, cid, payload in sub_msgs:
+        stream = stream + ref_frame(code, cid, payload)
+    sub = ScriptedSubIO(stream, chunks)
+    saved = gio.create_io
+    gio.create_io = lambda spec, execmodel: sub
+    try:
+        gio.serve_proxy_io(fx)              # returns when the sub's stream ends
+    finally:
+        gio.create_io = saved
+    # master -> sub: bytes unmodified, in order, one write per item
+    if sub.written != list(to_sub):
+        return False
+    # control: exactly the matching operation on the sub, exactly one reply
+    want_call, want_reply = [], None
+    if ctl_code == gio.RIO_WAIT:
+        want_call, want_reply = ["wait"], 7
+    elif ctl_code == gio.RIO_KILL:
+        want_call = ["kill"]
+    elif ctl_code == gio.RIO_CLOSE_WRITE:
+        want_call = ["close_write"]
+    else:
+        want_reply = "sub-address"
+    if sub.calls != want_call:
+        return False
+    f_out = sent_frames(F)
+    replies = [gb.loads_internal(p) for c, i, p in f_out if i == pio.controlchan.id and c == gb.Message.CHANNEL_DATA]
+    if len(replies) != 1 or replies[0] != want_reply or type(replies[0]) is not type(want_reply):
+        return False
+    # sub -> master: feed what the forwarder wrote back into M, read it through the real ProxyIO
+    deliver(M, f_out)
+    if pio.read(1) != b"1":
+        return False
+    for code, cid, payload in sub_msgs:
+        m = gb.Message.from_io(pio)
+        if m.msgcode != code or m.channelid != cid or m.data != payload:
+            return False
+    # and the master's _controll() finds its answer
+    try:
+        if recv_nb(pio.controlchan) != want_reply:
+            return False
+    except Exception:
+        return False
     return True
